@@ -13,9 +13,12 @@ import struct
 import sys
 import time
 import traceback
+import zlib
 
 import z3
 
+DEBUG = bool(os.environ.get('PATHSYM_DEBUG'))
+_DBG = {}
 MAX_DECISIONS = int(os.environ.get('PATHSYM_MAX_DECISIONS', '20000'))
 
 
@@ -61,6 +64,7 @@ class Ctx(object):
         self.prefix = list(prefix)
         self.trail = []          # [(taken, forced, hash)]
         self.known = {}          # z3 ast id -> bool, for terms kept alive in self.keep
+        self.conc = {}           # z3 ast id -> concretised value
         self.keep = []
         self.model = model if not prefix else model
         self.pending = []        # [(prefix list, model)]
@@ -178,11 +182,14 @@ class Ctx(object):
         i = len(self.trail)
         if i >= MAX_DECISIONS:
             raise Inconclusive('decision depth cap %d reached' % MAX_DECISIONS)
-        h = term.hash()
+        h = canon_hash(term)
         if i < len(self.prefix):
             taken, forced, ph = self.prefix[i][:3]
             if ph != h:
-                raise Inconclusive('nondeterministic replay at decision %d' % i)
+                raise Inconclusive('nondeterministic replay at decision %d: now %s ; expected %s; '
+                                   'trail so far %r' % (i, term.sexpr()[:300], _DBG.get(ph),
+                                                        [(t[0], t[1], t[3], _DBG.get(t[2]))
+                                                         for t in self.trail[-4:]]))
             self.solver.add(term if taken else z3.Not(term))
             if i + 1 == len(self.prefix):
                 pass  # model supplied with the prefix (if any) stays valid
@@ -208,6 +215,8 @@ class Ctx(object):
         return taken
 
     def _record(self, term, tid, taken, forced, h, aux=None):
+        if DEBUG:
+            _DBG[h] = term.sexpr()[:300]
         self.trail.append((taken, forced, h, aux))
         self.known[tid] = taken
         self.keep.append(term)
@@ -220,6 +229,10 @@ class Ctx(object):
         term = z3.simplify(term)
         if z3.is_int_value(term):
             return term.as_long()
+        tid = term.get_id()
+        if tid in self.conc:
+            return self.conc[tid]
+        self.keep.append(term)
         for _ in range(100000):
             i = len(self.trail)
             if i < len(self.prefix) and self.prefix[i][3] is not None:
@@ -227,8 +240,33 @@ class Ctx(object):
             else:
                 v = self.get_model().eval(term, model_completion=True).as_long()
             if self.decide(term == v, aux=v):
+                self.conc[tid] = v
                 return v
         raise Inconclusive('concretize did not terminate')
+
+
+_COMM = None
+
+
+def canon_hash(t):
+    """Structural hash that does not depend on AST ids or on the argument order the simplifier
+    picks for commutative operators (that order follows allocation order and differs between a
+    path and its replay)."""
+    global _COMM
+    if _COMM is None:
+        _COMM = {z3.Z3_OP_AND, z3.Z3_OP_OR, z3.Z3_OP_EQ, z3.Z3_OP_DISTINCT, z3.Z3_OP_ADD,
+                 z3.Z3_OP_MUL, z3.Z3_OP_IFF if hasattr(z3, 'Z3_OP_IFF') else z3.Z3_OP_EQ}
+    if z3.is_app(t):
+        d = t.decl()
+        k = d.kind()
+        n = t.num_args()
+        if n == 0:
+            return zlib.crc32(('%d:%s' % (k, d.name() if k == z3.Z3_OP_UNINTERPRETED else str(t))).encode())
+        hs = [canon_hash(t.arg(i)) for i in range(n)]
+        if k in _COMM:
+            hs.sort()
+        return hash((k, tuple(hs)))
+    return zlib.crc32(str(t).encode())
 
 
 # ---- proxies ----------------------------------------------------------------------------------
